@@ -119,7 +119,10 @@ CLAIMED["C05"] = dict(
          "the other targeted leaves validity is checked by the correspondence (independent h5py-only validator on the real file vs. "
          "Lean validFile on the model file after every save of every history); (2) the per-class body validity (infoOK) is a "
          "hypothesis at tree level and is discharged for the codecs: C05_array_body_ok, C05_metadata_entry_ok, C05_array_node_ok; "
-         "dim-vector lengths (2 or extent) are C02_stored_length.",
+         "dim-vector lengths (2 or extent) are C02_stored_length; (3) node-valued attributes of Custom nodes: the validator requires "
+         "every group of a body other than the bundle to carry one of the five custom_<type> tags and a class (C05_attr_groups_tagged); "
+         "Custom.to_h5 itself is not modelled: Custom nodes with attributes of every built-in class, subclasses and nested Custom nodes "
+         "are written by the real code and the raw walk of the real file is validated by both validators.",
     technique="Lean 4 invariant proof over a decidable validator + differential correspondence against an independent h5py validator",
     design="7 C05")
 
@@ -161,7 +164,9 @@ CLAIMED["C14"] = dict(
          "axis length, with units and names exactly those computed from the caller's arguments (C14_pad_kept, C14_units_kept, "
          "C14_names_kept, C14_omitted_pixels); C14_setters — every later set_dim / set_dim_units / set_dim_name keeps this; "
          "C14_ramp_entry / C14_ramp_int / C14_none_int — entry i of an expanded pair is a+(b-a)*i (exactly the arithmetic ramp for "
-         "Python ints; 0..N-1 for an omitted entry); C14_stack — depth / rank / shape of stacks.",
+         "Python ints; 0..N-1 for an omitted entry); C14_stack — depth / rank / shape of stacks; C14_slice_calibrations — for every well-formed "
+         "stack and every label that occurs, ar[label] (get_slice, modelled) succeeds and returns the addressed slice as an Array over "
+         "the remaining shape with exactly the stack's units, dim vectors, dim units and dim names.",
     note="Not modelled: how far an IEEE ramp is from the rational ramp (the property's 'arithmetic ramp' is checked with a "
          "4e-16 relative tolerance by the oracle); dims given as float32/float16 arrays at bit level. The correspondence compares "
          "dim values BIT-EXACTLY between numpy and the Lean Float driver after construction and after every setter. Slice-by-label "
